@@ -73,10 +73,11 @@ type thread struct {
 	nchoice  int
 	idle     bool
 
-	pidHash uint64
-	hash    uint64 // hash of the causal past of this thread
-	nsteps  int
-	fn      func()
+	pidHash  uint64
+	pathHash uint64
+	hash     uint64 // hash of the causal past of this thread
+	nsteps   int
+	fn       func()
 }
 
 // Step is one scheduler transition, as recorded in a trace.
@@ -162,6 +163,11 @@ type Exec struct {
 	optBuf   []option
 	lastOpts []option
 
+	key       uint64 // sum of the per-thread terms of the state key
+	expectKey uint64
+	OptKeys   [][]uint64 // per decision: predicted state key after each option
+	OptCurs   [][]string // per decision: thread that is current after each option
+
 	Data any // harness-owned observations
 }
 
@@ -245,6 +251,7 @@ func (x *Exec) spawn(parent *thread, name string, f func()) *thread {
 	copy(x.threads[pos+1:], x.threads[pos:])
 	x.threads[pos] = t
 	t.pidHash = strHash(t.pid)
+	t.pathHash = strHash(pathName(t.path))
 	x.mu.Unlock()
 	x.exited.Add(1)
 	go func() {
@@ -430,6 +437,17 @@ func (x *Exec) options() []option {
 				opts[i].pcost = 1
 			}
 		}
+	} else if x.sc.DelayBounding && len(opts) > 0 {
+		// delay bounding: when the current thread cannot continue, the canonical
+		// scheduler runs the first enabled thread (in creation-path order);
+		// running any other thread instead is a deviation. The alternatives of
+		// that first thread (select clauses, answers) stay free.
+		first := opts[0].t
+		for i := range opts {
+			if opts[i].t != first {
+				opts[i].pcost = 1
+			}
+		}
 	}
 	x.optBuf = opts
 	return opts
@@ -478,10 +496,10 @@ func (x *Exec) advanceClock() {
 	if !ok {
 		return
 	}
+	x.clockHash = x.nextClockHash()
 	if to > x.now {
 		x.now = to
 	}
-	x.clockHash = mix(x.clockHash, uint64(x.now), 77)
 	// fire every timer due at this instant, in (when, seq) order
 	for {
 		tm := x.nextTimer()
@@ -496,7 +514,7 @@ func (x *Exec) advanceClock() {
 		if tm.ch != nil {
 			select {
 			case tm.ch <- time.Unix(0, 0).Add(baseOffset + x.now):
-				x.noteWrite(tm.ch, mix(x.clockHash, 5))
+				x.noteWrite(any(hchan(chanPtr(tm.ch))), mix(x.clockHash, 5))
 			default:
 			}
 		}
@@ -515,43 +533,124 @@ func nil2(t *thread, x *Exec) *thread {
 
 const baseOffset = 1_700_000_000 * time.Second
 
-// fingerprint of the current state: the causal pasts of all threads plus the
-// pending operations and the clock.
-func (x *Exec) fingerprint() uint64 {
-	h := mix(x.clockHash, uint64(x.now))
-	for _, t := range x.threads {
-		h = mix(h, t.hash, uint64(t.state), t.pidHash)
-	}
-	return h
-}
+// The state key is the sum, over the threads that have executed at least one
+// event, of a hash of each thread's causal past (its own events and, through
+// the per-object hashes, the events of other threads they depended on), plus
+// the clock. Two prefixes with the same key contain the same events with the
+// same dependencies, hence lead to the same state. Because the key changes
+// only through scheduler transitions, the key of every successor can be
+// computed at the decision, without executing it (see optKey).
+func (x *Exec) term(t *thread, h uint64) uint64 { return mix(t.pathHash, h) }
+
+func clockTerm(ch uint64) uint64 { return mix(ch, 0x5eed) }
+
+func (x *Exec) stateKey() uint64 { return x.key + clockTerm(x.clockHash) }
 
 func (x *Exec) noteWrite(obj any, h uint64) {
 	x.objHash[obj] = h
 	delete(x.objReads, obj)
 }
 
-// event folds one executed operation into the causal hashes.
-func (x *Exec) event(t *thread, pid string, ci int, obj any, read bool, extra uint64) {
-	h := mix(t.hash, strHash(pid), uint64(ci+2), extra)
+// evHash is the hash a thread's causal past takes after executing an operation.
+func (x *Exec) evHash(t *thread, ci int, obj any, read bool, extra uint64) uint64 {
+	h := mix(t.hash, t.pidHash, uint64(ci+2), extra, x.clockHash)
 	if obj != nil {
 		h = mix(h, x.objHash[obj])
-		if read {
-			x.objReads[obj] = append(x.objReads[obj], h)
-		} else {
+		if !read {
 			for _, r := range x.objReads[obj] {
 				h = mix(h, r)
 			}
-			x.noteWrite(obj, h)
 		}
 	}
-	t.hash = h
-	t.nsteps++
+	return h
 }
 
-// Note folds an order-relevant but non-scheduling observation (e.g. a read of
-// the virtual clock) into the calling thread's causal hash.
-func (x *Exec) noteClockRead(t *thread) {
-	t.hash = mix(t.hash, x.clockHash, 9)
+// optHashes returns the new causal hashes of the thread (and partner) of an option.
+func (x *Exec) optHashes(o option) (ht, hp uint64, obj any, read bool) {
+	t := o.t
+	switch t.op {
+	case opChoose:
+		return x.evHash(t, o.val, nil, false, 3), 0, nil, false
+	case opChan:
+		if o.ci >= 0 {
+			obj = t.cases[o.ci].ch
+			if !t.cases[o.ci].send && hcClosed(t.cases[o.ci].ch) {
+				read = true
+			}
+		}
+		if o.partner != nil {
+			p := o.partner
+			h := mix(t.hash, p.hash, t.pidHash, p.pidHash, uint64(o.ci+2), uint64(o.pci+2), x.objHash[obj], x.clockHash)
+			for _, r := range x.objReads[obj] {
+				h = mix(h, r)
+			}
+			return mix(h, 1), mix(h, 2), obj, false
+		}
+		return x.evHash(t, o.ci, obj, read, 0), 0, obj, read
+	case opSleep:
+		return x.evHash(t, 0, nil, false, uint64(x.now)), 0, nil, false
+	}
+	return x.evHash(t, 0, t.obj, t.read, 0), 0, t.obj, t.read
+}
+
+func (x *Exec) nextClockHash() uint64 {
+	to, ok := x.nextClockEvent()
+	if !ok || to < x.now {
+		to = x.now
+	}
+	return mix(x.clockHash, uint64(to), 77)
+}
+
+// optKey predicts the state key after taking option o.
+func (x *Exec) optKey(o option) uint64 {
+	if o.clock {
+		return x.key + clockTerm(x.nextClockHash())
+	}
+	ht, hp, _, _ := x.optHashes(o)
+	k := x.key
+	if o.t.nsteps > 0 {
+		k -= x.term(o.t, o.t.hash)
+	}
+	k += x.term(o.t, ht)
+	if o.partner != nil {
+		if o.partner.nsteps > 0 {
+			k -= x.term(o.partner, o.partner.hash)
+		}
+		k += x.term(o.partner, hp)
+	}
+	return k + clockTerm(x.clockHash)
+}
+
+// apply folds the executed option into the causal hashes and the key.
+func (x *Exec) apply(o option) {
+	ht, hp, obj, read := x.optHashes(o)
+	set := func(t *thread, h uint64) {
+		if t.nsteps > 0 {
+			x.key -= x.term(t, t.hash)
+		}
+		t.hash = h
+		t.nsteps++
+		x.key += x.term(t, h)
+	}
+	set(o.t, ht)
+	if o.partner != nil {
+		set(o.partner, hp)
+	}
+	if obj != nil {
+		if read {
+			x.objReads[obj] = append(x.objReads[obj], ht)
+		} else {
+			x.noteWrite(obj, ht)
+		}
+	}
+}
+
+// sideEvent records a non-scheduling operation on obj (unlock, WaitGroup.Done):
+// later operations on obj depend on the caller's causal past.
+func (x *Exec) sideEvent(t *thread, id string, obj any) {
+	if obj != nil {
+		x.noteWrite(obj, mix(t.hash, strHash(id), x.objHash[obj]))
+	}
 }
 
 const maxSteps = 200000
@@ -594,6 +693,9 @@ func (x *Exec) decide() {
 					return
 				}
 				x.recordStep(Step{Thread: "clock", Point: "advance", NOpts: 1, VTimeMs: int64(clockAt / time.Millisecond)}, [2]int{}, nil)
+				x.OptKeys = append(x.OptKeys, nil)
+				x.OptCurs = append(x.OptCurs, nil)
+				x.expectKey = 0
 				x.advanceClock()
 				continue
 			}
@@ -609,7 +711,11 @@ func (x *Exec) decide() {
 			opts = append(opts, option{clock: true, fcost: 1})
 		}
 		step := len(x.Choices)
-		fp := x.fingerprint()
+		fp := x.stateKey()
+		if x.expectKey != 0 && fp != x.expectKey {
+			x.end(EndEngine, fmt.Sprintf("state key diverged from its prediction at step %d (%x vs %x): an operation outside the scheduler changed a causal hash", step, fp, x.expectKey))
+			return
+		}
 		curName := ""
 		if x.cur != nil {
 			curName = x.cur.name
@@ -628,9 +734,20 @@ func (x *Exec) decide() {
 		}
 		o := opts[choice]
 		oc := make([][2]int, len(opts))
+		ok := make([]uint64, len(opts))
+		on := make([]string, len(opts))
 		for i := range opts {
 			oc[i] = [2]int{opts[i].pcost, opts[i].fcost}
+			ok[i] = x.optKey(opts[i])
+			if opts[i].clock {
+				on[i] = curName
+			} else {
+				on[i] = opts[i].t.name
+			}
 		}
+		x.OptKeys = append(x.OptKeys, ok)
+		x.OptCurs = append(x.OptCurs, on)
+		x.expectKey = ok[choice]
 		x.FPs = append(x.FPs, fp)
 		x.Curs = append(x.Curs, curName)
 		if o.clock {
@@ -665,37 +782,16 @@ func (x *Exec) recordStep(st Step, cost [2]int, oc [][2]int) {
 func (x *Exec) release(o option) {
 	t := o.t
 	chosen := o.ci
-	switch t.op {
-	case opChoose:
+	if t.op == opChoose {
 		chosen = o.val
-		x.event(t, t.pid, o.val, nil, false, 3)
-	case opChan:
-		var obj any
-		read := false
-		if o.ci >= 0 {
-			obj = t.cases[o.ci].ch
-			if !t.cases[o.ci].send && hcClosed(t.cases[o.ci].ch) {
-				read = true
-			}
-		}
-		if o.partner != nil {
-			p := o.partner
-			// joint event: both causal pasts merge
-			h := mix(t.hash, p.hash, strHash(t.pid), strHash(p.pid), uint64(o.ci+2), uint64(o.pci+2), x.objHash[obj])
-			x.noteWrite(obj, h)
-			t.hash, p.hash = mix(h, 1), mix(h, 2)
-			p.state = 0
-			p.op = opNone
-			x.running++
-			p.wake <- wakeMsg{chosen: o.pci}
-		} else {
-			x.event(t, t.pid, o.ci, obj, read, 0)
-		}
-	case opSleep:
-		x.event(t, t.pid, 0, nil, false, uint64(x.now))
-		x.noteClockRead(t)
-	default:
-		x.event(t, t.pid, 0, t.obj, t.read, 0)
+	}
+	x.apply(o)
+	if o.partner != nil {
+		p := o.partner
+		p.state = 0
+		p.op = opNone
+		x.running++
+		p.wake <- wakeMsg{chosen: o.pci}
 	}
 	t.state = 0
 	t.op = opNone
